@@ -10,6 +10,13 @@ comparison operators are not events), as Gallina definitions in Gen/XSeek.v:
                                        arguments of the two
                                        try_find_line_with_date calls
                   getitem_line_info_cmp  test guarding `self.line_info = result`
+  LogLine         logline_init_fields, logline_start_lf_attr /
+                  logline_end_lf_attr, logline_len (__len__),
+                  read_line_window (_read_line: seek target, bytes read),
+                  logline_date_read_len (date), logline_text_read_len (text)
+  SearchState     search_state_init_fields, *_status_attr, *_offset_attr
+  SavedFilePosition   saved_position_after_exit
+  LogFileDateSinceSeeker.__init__ / __len__   seeker_init_*, seeker_len
   run             run_tfld_args        arguments of the last-line probe
                   run_shortcut_slf     start line feed of the faked first line
                   run_shortcut_cmp     inner test of the first-line shortcut
@@ -47,7 +54,13 @@ def _calls(fn, src):
     return sorted(out, key=lambda n: (n.lineno, n.col_offset))
 
 
+WHENCE = {'os.SEEK_SET': 0, 'os.SEEK_CUR': 1, 'os.SEEK_END': 2,
+          'io.SEEK_SET': 0, 'io.SEEK_CUR': 1, 'io.SEEK_END': 2}
+
+
 def _int(node):
+    if ast.unparse(node) in WHENCE:
+        return WHENCE[ast.unparse(node)]
     if isinstance(node, ast.Constant) and isinstance(node.value, int) \
             and not isinstance(node.value, bool):
         return node.value
@@ -63,8 +76,13 @@ def _z(k):
 
 
 def seek_sites(fn):
+    """ the fd.seek calls inside the try statement of apply_to_file (the
+    cached-offset branch before it belongs to C08 and may live in a helper) """
+    tries = [n for n in fn.body if isinstance(n, ast.Try)]
+    if len(tries) != 1:
+        raise Bad("apply_to_file: one try statement expected")
     sites = []
-    for c in _calls(fn, 'fd.seek'):
+    for c in _calls(tries[0], 'fd.seek'):
         if c.keywords or not 1 <= len(c.args) <= 2:
             raise Bad(f"fd.seek call shape: {ast.unparse(c)}")
         a0 = ast.unparse(c.args[0])
@@ -97,7 +115,9 @@ def _tfld_arg(c, lenexpr=None):
             and ast.unparse(a.left) == 'offset':
         ga = f"(offset {'+' if isinstance(a.op, ast.Add) else '-'} " \
              f"{_z(_int(a.right))})"
-    elif lenexpr is not None and sa == lenexpr:
+    elif lenexpr is not None and isinstance(a, ast.Call) and \
+            ast.unparse(a.func) == lenexpr and not a.keywords and \
+            [_int(x) for x in a.args] == [0, 2]:
         ga = 'len'
     else:
         raise Bad(f"start offset argument: {sa}")
@@ -175,7 +195,7 @@ def run(fn):
     calls = _calls(fn, 'self.try_find_line_with_date')
     if len(calls) != 1:
         raise Bad("one last-line probe expected in run()")
-    probe = _tfld_arg(calls[0], lenexpr='self.file.seek(0, 2)')
+    probe = _tfld_arg(calls[0], lenexpr='self.file.seek')
     txt = ("Definition run_tfld_args (len : Z) : Z * option Z * bool :=\n"
            f"  let offset := 0 in {probe}.\n")
     # first-line shortcut
@@ -243,6 +263,205 @@ def run(fn):
     return txt
 
 
+def _findq(tree, qual):
+    cls, fn = qual.split('.')
+    return _find(tree, cls, fn)
+
+
+def _stmts(fn):
+    """ body without docstring, log.* calls and asserts """
+    return [n for n in _nolog(fn.body) if not isinstance(n, ast.Assert)]
+
+
+def _ret_expr(fn, what):
+    b = _stmts(fn)
+    if not (len(b) == 1 and isinstance(b[0], ast.Return)):
+        raise Bad(f"{what}: a single return expected")
+    return b[0].value
+
+
+def _fields(fn, what):
+    """ __init__ that only copies / initialises attributes:
+    [(attribute, source text of the value)] in order """
+    out = []
+    for n in _stmts(fn):
+        if isinstance(n, ast.With):
+            continue
+        if not (isinstance(n, ast.Assign) and len(n.targets) == 1 and
+                isinstance(n.targets[0], ast.Attribute) and
+                ast.unparse(n.targets[0].value) == 'self'):
+            raise Bad(f"{what}: unexpected statement `{ast.unparse(n)}`")
+        out.append((n.targets[0].attr, ast.unparse(n.value)))
+    return out
+
+
+def _coq_pairs(name, pairs):
+    body = "; ".join(f'("{a}", "{b}")' for a, b in pairs)
+    return (f"Definition {name} : list (string * string) :=\n"
+            f"  [{body}]%string.\n")
+
+
+def _arith(e, env, what):
+    """ + - over names in env and integer literals """
+    if isinstance(e, ast.BinOp) and isinstance(e.op, (ast.Add, ast.Sub)):
+        op = '+' if isinstance(e.op, ast.Add) else '-'
+        return f"({_arith(e.left, env, what)} {op} " \
+               f"{_arith(e.right, env, what)})"
+    src = ast.unparse(e)
+    if src in env:
+        return env[src]
+    try:
+        return _z(_int(e))
+    except Bad:
+        raise Bad(f"{what}: cannot translate `{src}`") from None
+
+
+def logline(tree):
+    txt = ""
+    # LogLine.__init__: which argument goes into which attribute
+    f = _fields(_findq(tree, 'LogLine.__init__'), 'LogLine.__init__')
+    txt += _coq_pairs('logline_init_fields', f)
+    # the properties start_lf / end_lf read those attributes back
+    for prop, name in (('LogLine.start_lf', 'logline_start_lf_attr'),
+                       ('LogLine.end_lf', 'logline_end_lf_attr')):
+        r = ast.unparse(_ret_expr(_findq(tree, prop), prop))
+        if not r.startswith('self.'):
+            raise Bad(f"{prop}: returns `{r}`")
+        txt += f'Definition {name} : string := "{r[5:]}"%string.\n'
+    # LogLine.__len__
+    e = _ret_expr(_findq(tree, 'LogLine.__len__'), 'LogLine.__len__')
+    g = _arith(e, {'self.end_offset': 'end_offset',
+                   'self.start_offset': 'start_offset'}, 'LogLine.__len__')
+    txt += ("Definition logline_len (end_offset start_offset : Z) : Z :=\n"
+            f"  {g}.\n")
+    # LogLine._read_line: seek(start_offset); read(max_len) inside a
+    # SavedFilePosition block (the position is restored afterwards)
+    fn = _findq(tree, 'LogLine._read_line')
+    b = _stmts(fn)
+    if not (len(b) == 1 and isinstance(b[0], ast.With) and
+            len(b[0].items) == 1 and
+            ast.unparse(b[0].items[0].context_expr) ==
+            'SavedFilePosition(self._file)' and
+            b[0].items[0].optional_vars is not None):
+        raise Bad("LogLine._read_line: `with SavedFilePosition(self._file) "
+                  "as f:` expected")
+    var = ast.unparse(b[0].items[0].optional_vars)
+    inner = _nolog(b[0].body)
+    seeks = [n for n in inner if isinstance(n, ast.Expr) and
+             isinstance(n.value, ast.Call) and
+             ast.unparse(n.value.func) == var + '.seek']
+    reads = [n for n in ast.walk(b[0]) if isinstance(n, ast.Call) and
+             ast.unparse(n.func) == var + '.read']
+    rets = [n for n in ast.walk(b[0]) if isinstance(n, ast.Return)]
+    if not (len(seeks) == 1 and len(reads) == 1 and len(rets) == 1 and
+            len(seeks[0].value.args) == 1 and len(reads[0].args) == 1 and
+            inner.index(seeks[0]) == 0):
+        raise Bad("LogLine._read_line: one seek, then one read, one return")
+    ret = ast.unparse(rets[0].value)
+    assigned = [ast.unparse(n.targets[0]) for n in inner
+                if isinstance(n, ast.Assign) and n.value is reads[0]]
+    if not (rets[0].value is reads[0] or ret in assigned):
+        raise Bad("LogLine._read_line: must return what was read")
+    env = {'self.start_offset': 'start_offset', 'max_len': 'max_len'}
+    txt += ("Definition read_line_window (start_offset max_len : Z) : Z * Z :=\n"
+            f"  ({_arith(seeks[0].value.args[0], env, '_read_line seek')}, "
+            f"{_arith(reads[0].args[0], env, '_read_line read')}).\n")
+    # LogLine.date: how many bytes it asks _read_line for
+    fn = _findq(tree, 'LogLine.date')
+    calls = _calls(fn, 'self._read_line')
+    if len(calls) != 1 or calls[0].keywords or len(calls[0].args) != 1:
+        raise Bad("LogLine.date: one self._read_line(n) call expected")
+    arg = calls[0].args[0]
+    if isinstance(arg, ast.Name):        # a local: its single definition
+        defs = [n for n in ast.walk(fn) if isinstance(n, ast.Assign) and
+                ast.unparse(n.targets[0]) == arg.id]
+        if len(defs) != 1:
+            raise Bad("LogLine.date: read length local")
+        arg = defs[0].value
+
+    def rdlen(e):
+        if isinstance(e, ast.Call) and ast.unparse(e.func) in ('min', 'max') \
+                and len(e.args) == 2 and not e.keywords:
+            fn_ = 'Z.min' if ast.unparse(e.func) == 'min' else 'Z.max'
+            return f"({fn_} {rdlen(e.args[0])} {rdlen(e.args[1])})"
+        return _arith(e, {'self.MAX_DATETIME_READ_BYTES': 'W',
+                          'self.end_offset': 'end_offset',
+                          'self.start_offset': 'start_offset'},
+                      'LogLine.date read length')
+    txt += ("Definition logline_date_read_len (W end_offset start_offset : Z)"
+            f" : Z :=\n  {rdlen(arg)}.\n")
+    # LogLine.text: _read_line(max_len=len(self))
+    e = _ret_expr(_findq(tree, 'LogLine.text'), 'LogLine.text')
+    if ast.unparse(e) not in ('self._read_line(max_len=len(self))',
+                              'self._read_line(len(self))'):
+        raise Bad(f"LogLine.text: `{ast.unparse(e)}`")
+    txt += "Definition logline_text_read_len (len_self : Z) : Z := len_self.\n"
+    return txt, f
+
+
+def small_classes(tree):
+    txt = ""
+    # SearchState.__init__ and its two properties
+    f = _fields(_findq(tree, 'SearchState.__init__'), 'SearchState.__init__')
+    txt += _coq_pairs('search_state_init_fields', f)
+    for prop, name in (('SearchState.status', 'search_state_status_attr'),
+                       ('SearchState.offset', 'search_state_offset_attr')):
+        r = ast.unparse(_ret_expr(_findq(tree, prop), prop))
+        if not r.startswith('self.'):
+            raise Bad(f"{prop}: returns `{r}`")
+        txt += f'Definition {name} : string := "{r[5:]}"%string.\n'
+    # SavedFilePosition: remembers tell() and seeks back to it on exit
+    f = _fields(_findq(tree, 'SavedFilePosition.__init__'),
+                'SavedFilePosition.__init__')
+    if sorted(f) != [('file', 'file'), ('original_position', 'file.tell()')]:
+        raise Bad(f"SavedFilePosition.__init__: {f}")
+    e = _ret_expr(_findq(tree, 'SavedFilePosition.__enter__'),
+                  'SavedFilePosition.__enter__')
+    if ast.unparse(e) != 'self.file':
+        raise Bad("SavedFilePosition.__enter__ must return self.file")
+    b = _stmts(_findq(tree, 'SavedFilePosition.__exit__'))
+    if not (len(b) == 1 and isinstance(b[0], ast.Expr) and
+            isinstance(b[0].value, ast.Call) and
+            ast.unparse(b[0].value.func) == 'self.file.seek' and
+            len(b[0].value.args) == 1 and not b[0].value.keywords):
+        raise Bad("SavedFilePosition.__exit__: a single self.file.seek(x)")
+    g = _arith(b[0].value.args[0], {'self.original_position': 'tell_at_entry'},
+               'SavedFilePosition.__exit__')
+    txt += ("Definition saved_position_after_exit (tell_at_entry : Z) : Z :=\n"
+            f"  {g}.\n")
+    # LogFileDateSinceSeeker.__init__ / __len__
+    fn = _findq(tree, 'LogFileDateSinceSeeker.__init__')
+    f = dict(_fields(fn, 'LogFileDateSinceSeeker.__init__'))
+    if f.get('line_info') != 'None' or f.get('found_any_date') not in (
+            'True', 'False'):
+        raise Bad(f"LogFileDateSinceSeeker.__init__: {f}")
+    withs = [n for n in _stmts(fn) if isinstance(n, ast.With)]
+    if not (len(withs) == 1 and
+            ast.unparse(withs[0].items[0].context_expr) ==
+            'SavedFilePosition(self.file)'):
+        raise Bad("LogFileDateSinceSeeker.__init__: length is measured "
+                  "inside SavedFilePosition(self.file)")
+    wb = _nolog(withs[0].body)
+    var = ast.unparse(withs[0].items[0].optional_vars)
+    if not (len(wb) == 1 and isinstance(wb[0], ast.Assign) and
+            ast.unparse(wb[0].targets[0]) == 'self.length' and
+            isinstance(wb[0].value, ast.Call) and
+            ast.unparse(wb[0].value.func) == var + '.seek' and
+            len(wb[0].value.args) == 2):
+        raise Bad("LogFileDateSinceSeeker.__init__: self.length = f.seek(..)")
+    a0, a1 = (_int(x) for x in wb[0].value.args)
+    txt += (f"Definition seeker_init_found_any_date : bool := "
+            f"{f['found_any_date'].lower()}.\n"
+            "Definition seeker_init_line_info_is_none : bool := true.\n"
+            f"Definition seeker_length_seek : Z * Z := ({_z(a0)}, {_z(a1)}).\n")
+    e = _ret_expr(_findq(tree, 'LogFileDateSinceSeeker.__len__'),
+                  'LogFileDateSinceSeeker.__len__')
+    if ast.unparse(e) != 'self.length':
+        raise Bad("LogFileDateSinceSeeker.__len__ must return self.length")
+    txt += "Definition seeker_len (length : Z) : Z := length.\n"
+    return txt, None
+
+
 def generate(repo):
     with open(os.path.join(repo, 'searchkit', 'constraints.py'),
               encoding='utf-8') as f:
@@ -259,7 +478,9 @@ def generate(repo):
              lambda: getitem(_find(tree, 'LogFileDateSinceSeeker',
                                    '__getitem__'))),
             ('run', lambda: (run(_find(tree, 'LogFileDateSinceSeeker',
-                                       'run')), None))]
+                                       'run')), None)),
+            ('logline', lambda: logline(tree)),
+            ('small_classes', lambda: small_classes(tree))]
     for name, job in jobs:
         try:
             txt, extra = job()
